@@ -186,7 +186,8 @@ def generate_hmc_acc_rej(
         kinetic_energy_w_inv_mass=partial(kinetic_energy, inverse_mass_matrix),
     )
     energy_diff = total_energy(initial_qp) - total_energy(proposed_qp)
-    energy_diff = jnp.where(jnp.isnan(energy_diff), jnp.inf, energy_diff)
+    # a NaN energy (overflown trajectory) must never be accepted: exp(-inf) = 0
+    energy_diff = jnp.where(jnp.isnan(energy_diff), -jnp.inf, energy_diff)
     transition_probability = jnp.minimum(1.0, jnp.exp(energy_diff))
 
     accept = random.bernoulli(key, transition_probability)
